@@ -221,6 +221,28 @@ def check_stateless_readonly(ctx, facts, fn_name="batch_read_for_topic"):
     ctx.floor("C02.2", "read-guard acquisitions in the offset-addressed arm", reads, 1)
 
 
+_EFF = {}
+
+
+def _callee_stored_fields(facts, term):
+    """(owner suffix, field) pairs the callee of this call may store to, from its effect summary;
+    None when the callee has no summary (unknown)."""
+    if id(facts) not in _EFF:
+        _EFF[id(facts)] = Effects(facts)
+    eff = _EFF[id(facts)]
+    k = eff._byname.get(strip_generics(term.get("callee") or ""))
+    if k is None:
+        return None
+    out = set()
+    for kind in eff.summary.get(k, ()):
+        m = re.match(r"^store:([A-Za-z0-9_]+)\.([A-Za-z0-9_]+)$", kind)
+        if m:
+            out.add((m.group(1), m.group(2)))
+        elif kind.startswith(("mut:", "store:")):
+            return None   # mutation of something that is not a plain tracked field: stay coarse
+    return out
+
+
 def check_ni(ctx, facts, fn_name):
     body = facts.body(fn_name)
     F = common.short_fn(body.name)
@@ -252,12 +274,26 @@ def check_ni(ctx, facts, fn_name):
             tt = blk["term"]
             if tt["k"] == "call" and not tt["dest"]["p"] and tt["dest"]["l"] in ret_locals:
                 hit = (tt["dest"]["l"], tt["line"])
-            if tt["k"] == "call":
+            if tt["k"] == "call" and not re.search(r"::(deref_mut|deref|as_mut|as_deref_mut|borrow_mut)$", strip_generics(tt.get("callee") or "")):
+                # (re-borrowing a guard mutably does not write through it; what is done with the
+                # re-borrow is judged at the call that receives it)
+                flds = _callee_stored_fields(facts, tt)
                 for a in tt["args"]:
                     al = op_local(a)
                     if al is None or "&mut" not in body.local_ty(al):
                         continue
                     tgt = borrowed_local(body, a)
+                    if flds is not None:
+                        # field-sensitive: the callee's effect summary says which fields it stores to; only
+                        # loads of those fields can carry the mutation into the returned value (this also
+                        # covers a mutation made through a re-borrow of a guard)
+                        for owner, fld in flds:
+                            for ls in body.field_loads(owner, fld):
+                                node = ls.node
+                                dl = node["place"]["l"] if ls.idx != "term" else (node.get("dest") or {}).get("l")
+                                if dl in ret_locals:
+                                    hit = (tgt if tgt is not None else al, tt["line"])
+                        continue
                     if tgt is not None and tgt in ret_locals and tgt != al:
                         # forward, flow-sensitive: does the mutated storage reach the returned value?
                         fw = Taint(body, [], track_memory=True, mem_seeds={tgt: {(b, "term")}})
